@@ -320,12 +320,43 @@ func c02Body(e *Env) {
 		drawSched(&cfg, rng)
 		cfg.NTx = 2 + rng.Intn(7)
 		cfg.Readers = 1 + rng.Intn(3)
-		cfg.Mix = []string{"balanced", "overwrite", "checkpoint", "rollback", "big", "alloc"}[rng.Intn(6)]
+		cfg.Mix = []string{"balanced", "overwrite", "checkpoint", "rollback", "big", "alloc", "fragment"}[rng.Intn(7)]
 		if rng.Intn(3) == 0 { // unbounded, small pages, big allocations: grows past the initial mapping
 			cfg.MaxSize = 0
 			cfg.Mix = "big"
 		}
 		c.Cfg = &cfg
+		if c.Tasks == nil && rng.Intn(6) == 0 {
+			// writer preset: commits that only free pages alternate with transactions
+			// that allocate (the pages just freed), write and flush them, while the
+			// readers hold their snapshots for a long time
+			cfg.Variant = 4
+			prog := []Op{{K: "begin"}, {K: "allocn", A: 12 + rng.Intn(12)}}
+			for i := 0; i < 10; i++ {
+				prog = append(prog, Op{K: "setfull", A: rng.Intn(1 << 16)})
+			}
+			prog = append(prog, Op{K: "commit"})
+			for k, n := 0, 2+rng.Intn(4); k < n; k++ {
+				prog = append(prog, Op{K: "begin"})
+				for i, m := 0, 1+rng.Intn(4); i < m; i++ {
+					prog = append(prog, Op{K: "free", A: rng.Intn(1 << 16)})
+				}
+				prog = append(prog, Op{K: "commit"}, Op{K: "begin"}, Op{K: "allocn", A: 1 + rng.Intn(4)})
+				for i := 0; i < 8; i++ {
+					prog = append(prog, Op{K: "setfull", A: rng.Intn(1 << 16)})
+				}
+				prog = append(prog, Op{K: []string{"txflush", "txflush", "commit"}[rng.Intn(3)]})
+				prog = append(prog, Op{K: []string{"commit", "rollback", "closetx"}[rng.Intn(3)]})
+			}
+			c.Tasks = map[string][]Op{"w0": prog}
+			for i := 0; i < cfg.Readers; i++ {
+				var rp []Op
+				for k, n := 0, 2+rng.Intn(4); k < n; k++ {
+					rp = append(rp, Op{K: "snap", A: 5 + rng.Intn(40), B: 1 + rng.Intn(3), C: rng.Intn(6)})
+				}
+				c.Tasks[fmt.Sprintf("r%d", i)] = rp
+			}
+		}
 	}
 	cfg := *c.Cfg
 	d := e.NewDisk("file")
